@@ -87,6 +87,16 @@ impl ExtendedPrivateKey {
         let mut checksum = vec![0; 4];
         cursor.read_exact(&mut checksum)?;
 
+        let payload_len = cursor.position() as usize - 4;
+        let decoded_bytes = cursor.get_ref();
+        if decoded_bytes.len() != payload_len + 4 {
+            return Err(BSVErrors::GenericError("Extended private key has trailing bytes after the checksum".into()));
+        }
+
+        if checksum != Hash::sha_256d(&decoded_bytes[..payload_len]).to_bytes()[0..4] {
+            return Err(BSVErrors::GenericError("Extended private key checksum does not match".into()));
+        }
+
         Ok(ExtendedPrivateKey {
             private_key,
             public_key,
